@@ -263,6 +263,15 @@ func saveReplay(prop, name string, f *Failure, caseJSON []byte) string {
 	return path
 }
 
+// NewCtx returns a context for executions that are not driven by Check/Replay (native fuzz targets).
+func NewCtx() *Ctx { return &Ctx{labels: map[string]int{}} }
+
+// SaveReplay writes a failing case as a plain replay file of the named sub-check and returns its path.
+func SaveReplay(prop, name string, f *Failure, c interface{}) string {
+	cj, _ := json.Marshal(c)
+	return saveReplay(prop, name, f, cj)
+}
+
 func writeInflight(prop, name string, caseJSON []byte) {
 	p := os.Getenv("VERIF_INFLIGHT")
 	if p == "" {
